@@ -101,7 +101,7 @@ static inline void vf_mk_istream_in(vf_stream *f)
   f->len = len;
   f->cap = len;
   long pos;
-  __CPROVER_assume(pos >= -1 && pos <= (long)VF_MAXFILE + 0x100000000L);
+  __CPROVER_assume(pos >= -1 && pos <= 0x1000000000L);
   f->pos = pos;
   f->is_open = nondet_bool();
   f->eof = nondet_bool();
@@ -116,6 +116,10 @@ static inline struct c3d *vf_mk_c3d_reader(void)
   vf_mk_istream_in(&c->vf_base);
   c->m_nByteToRead_float = 4;
   c->c_float = (char *)vf_alloc(5);
+#ifdef VF_TRACK_ALLOC
+  vf_trk_ptr = 0; /* no allocation is being tracked yet; any size may have been requested before */
+  vf_trk_kind = 0;
+#endif
   return c;
 }
 
